@@ -23,8 +23,15 @@ contract field Explore.explore(log, scrapeInfo, url)
 // "Every discovered target is probed once it is first asked for ... at most one probe per target is in flight" (C20):
 // a known target that is not being explored is handed to the workers exactly once and marked; one that is already
 // being explored is not handed over again; an unknown hash yields nothing
+// the explorer's table: every tracked target has a well-formed status (non-negative estimates) - established by
+// UpdateTargets, kept by ApplyConfig, Get and exploreOnce. This is what the coordinator's getExploreResult (wired to
+// Explore.Get in cmd/kvass) is assumed to return.
+pred wfTable(e) = forall h, x in e.targets :: x != nil && x.rt != nil && wfStatus(x.rt) && x.target != nil
+
 contract Explore.Get
-  requires e != nil && (forall h, x in e.targets :: x != nil)
+  requires e != nil && wfTable(e)
+  ensures[C20,C04] @estimates_handed_to_the_coordinator_are_well_formed result != nil ==> wfStatus(result)
+  ensures wfTable(e)
   ensures[C20] @unknown_target_is_not_probed !(hash in e.targets) ==> result == nil && gProbeSends == old(gProbeSends)
   ensures[C20] @first_ask_starts_exactly_one_probe (hash in e.targets && !old(e.targets[hash].exploring)) ==>
         (gProbeSends == old(gProbeSends) + 1 && gLastProbeSent == e.targets[hash] && e.targets[hash].exploring)
@@ -35,7 +42,8 @@ contract Explore.Get
 // "The sample counts of the successful probe (before and after metric relabeling) become the target's load estimate";
 // a failed probe must not leave the status looking like a successful one (its estimate would be used for assignment)
 contract Explore.exploreOnce
-  requires e != nil && t != nil && t.rt != nil && t.target != nil && e.scrapeManager != nil && e.explore != nil && wfWindow(t.rt)
+  requires e != nil && t != nil && t.rt != nil && t.target != nil && e.scrapeManager != nil && e.explore != nil && wfWindow(t.rt) && wfStatus(t.rt)
+  ensures[C20,C04] @estimate_stays_well_formed wfStatus(t.rt) && wfWindow(t.rt)
   requires forall j, inf in e.scrapeManager.jobs :: inf != nil ==> inf.Config != nil
   ensures[C20] @failed_probe_is_not_reported_good err != nil ==> t.rt.Health != "up"
   ensures[C20] @successful_probe_is_reported_good err == nil ==> t.rt.Health == "up"
@@ -55,7 +63,8 @@ on insert_local "map[uint64]*tkestack.io/kvass/pkg/explore.exploringTarget"(m, k
 pred fromUpdate(h, targets) = gXJob[h] in targets && 0 <= gXIdx[h] && gXIdx[h] < len(targets[gXJob[h]]) && targets[gXJob[h]][gXIdx[h]].ShardTarget.Hash == h
 
 contract Explore.UpdateTargets
-  requires e != nil && (forall jn, ts in targets :: forall t in ts :: t != nil && t.ShardTarget != nil)
+  requires e != nil && wfTable(e) && (forall jn, ts in targets :: forall t in ts :: t != nil && t.ShardTarget != nil)
+  ensures wfTable(e)
   ensures[C17] @every_target_of_the_update_is_tracked forall jn, ts in targets :: forall t in ts :: (t.ShardTarget.Hash in e.targets)
   ensures[C17] @only_targets_of_the_update_are_tracked forall h, x in e.targets :: x != nil && fromUpdate(h, targets)
   ensures[C17] @known_targets_keep_their_entry forall h, x in e.targets :: (old(e.targets[h]) != nil ==> x == old(e.targets[h]))
@@ -66,19 +75,22 @@ contract Explore.UpdateTargets
   loop 1 invariant all != nil && fresh(all) && e.targets == old(e.targets) && samemap(e.targets)
   loop 1 invariant forall jn in visited1 :: (jn in targets && forall t in targets[jn] :: (t.ShardTarget.Hash in all))
   loop 1 invariant[C17] @only_targets_of_the_update_are_tracked forall h, x in all :: x != nil && fromUpdate(h, targets)
+  loop 1 invariant forall h, x in all :: x != nil && x.rt != nil && wfStatus(x.rt) && x.target != nil
   loop 1 invariant[C17] @known_targets_keep_their_entry forall h, x in all :: (old(e.targets[h]) != nil ==> x == old(e.targets[h]))
   loop 1 invariant[C17] @new_targets_start_unexplored forall h, x in all :: (old(e.targets[h]) == nil ==> (fresh(x) && allocated(x) && !x.exploring && x.rt != nil && x.job == gXJob[h] && x.target == targets[gXJob[h]][gXIdx[h]].ShardTarget))
   loop 2 invariant all != nil && fresh(all) && e.targets == old(e.targets) && samemap(e.targets)
   loop 2 invariant forall jn in visited1 :: (jn != job ==> (jn in targets && forall t in targets[jn] :: (t.ShardTarget.Hash in all)))
   loop 2 invariant job in targets && ts == targets[job] && (forall j in 0..idx2 :: ts[j].ShardTarget.Hash in all)
   loop 2 invariant[C17] @only_targets_of_the_update_are_tracked forall h, x in all :: x != nil && fromUpdate(h, targets)
+  loop 2 invariant forall h, x in all :: x != nil && x.rt != nil && wfStatus(x.rt) && x.target != nil
   loop 2 invariant[C17] @known_targets_keep_their_entry forall h, x in all :: (old(e.targets[h]) != nil ==> x == old(e.targets[h]))
   loop 2 invariant[C17] @new_targets_start_unexplored forall h, x in all :: (old(e.targets[h]) == nil ==> (fresh(x) && allocated(x) && !x.exploring && x.rt != nil && x.job == gXJob[h] && x.target == targets[gXJob[h]][gXIdx[h]].ShardTarget))
 
 // a reload keeps the entries of every job that is still configured and removes those of deleted jobs at once
 pred jobListed(j, cfg) = exists k in 0..len(cfg.Config.ScrapeConfigs) :: cfg.Config.ScrapeConfigs[k].JobName == j
 contract Explore.ApplyConfig
-  requires e != nil && cfg != nil && cfg.Config != nil && (forall j in cfg.Config.ScrapeConfigs :: j != nil) && (forall h, x in e.targets :: x != nil)
+  requires e != nil && cfg != nil && cfg.Config != nil && (forall j in cfg.Config.ScrapeConfigs :: j != nil) && wfTable(e)
+  ensures wfTable(e)
   // package-level metric vectors are initialised by prometheus.NewGaugeVec / NewCounterVec (never nil)
   requires exploredTotal != nil && exploringTotal != nil
   ensures[C17] @targets_of_kept_jobs_stay forall h in old(keys(e.targets)) :: (jobListed(old(e.targets[h]).job, cfg) ==> (h in e.targets && e.targets[h] == old(e.targets[h])))
